@@ -96,8 +96,34 @@ def replay_agent(doc):
             pool.load_robots_txt(ui, text)
             got = pool.can_fetch(ui, ua); exp = ref.is_allowed(ua, ui.url)
             if bool(got) != bool(exp): bad.append('user agent %r, %s: pool says %s, the matcher says %s for this agent' % (ua, path, 'allowed' if got else 'disallowed', 'allowed' if exp else 'disallowed'))
+    # the verdict is a function of (rules of the origin, agent, WHOLE url -- query included): asked in every order on ONE pool (a history), with rules that
+    # depend on the query string, with two agents, two origins and a reload of the rules in between
+    text2 = 'User-agent: *\nDisallow: /forum/index.php?action=\nDisallow: /*?sessionid=\nDisallow: /private\n\nUser-agent: special\nDisallow: /\n'
+    text3 = 'User-agent: *\nDisallow: /forum/index.php?board=\n'
+    ref2 = robotexclusionrulesparser.RobotExclusionRulesParser(); ref2.parse(text2)
+    ref3 = robotexclusionrulesparser.RobotExclusionRulesParser(); ref3.parse(text3)
+    urls = ['http://h.example/forum/index.php?board=1', 'http://h.example/forum/index.php?action=login', 'http://h.example/gallery/view?id=5', 'http://h.example/gallery/view?sessionid=abc',
+            'http://h.example/private', 'http://h.example/private?x=1', 'http://h.example/', 'http://other.example/forum/index.php?action=login', 'https://h.example/forum/index.php?action=login']
+    import itertools
+    for order in itertools.permutations(range(len(urls)), 2):
+        pool = RobotsTxtPool()
+        pool.load_robots_txt(URLInfo.parse('http://h.example/'), text2); pool.load_robots_txt(URLInfo.parse('http://other.example/'), text3)
+        pool.load_robots_txt(URLInfo.parse('https://h.example/'), text3)
+        for step, k in enumerate(order + order):
+            ui = URLInfo.parse(urls[k]); ua = 'special' if step == 3 else 'Wpull/2'
+            r = ref2 if urls[k].startswith('http://h.example') else ref3
+            got = pool.can_fetch(ui, ua); exp = r.is_allowed(ua, ui.url)
+            if bool(got) != bool(exp):
+                bad.append('history %s: %s for agent %r is %s, the rules of its origin say %s' % ([urls[j].split('example')[1] for j in (order + order)[:step]], urls[k], ua, 'allowed' if got else 'disallowed', 'allowed' if exp else 'disallowed'))
+                break
+        if len(bad) > 6: break
+    # rules replaced (robots.txt fetched again): earlier verdicts must not survive
+    pool = RobotsTxtPool(); ui = URLInfo.parse(urls[1])
+    pool.load_robots_txt(ui, text3); first = pool.can_fetch(ui, 'Wpull/2'); pool.load_robots_txt(ui, text2); second = pool.can_fetch(ui, 'Wpull/2')
+    if bool(first) != bool(ref3.is_allowed('Wpull/2', ui.url)) or bool(second) != bool(ref2.is_allowed('Wpull/2', ui.url)):
+        bad.append('after the rules of the origin were replaced, %s is %s (before: %s)' % (urls[1], 'allowed' if second else 'disallowed', 'allowed' if first else 'disallowed'))
     if bad: return True, '; '.join(bad[:4])
-    return False, 'pool verdicts equal the matcher verdicts for 8 agents x 4 paths'
+    return False, 'pool verdicts equal the matcher verdicts for 8 agents x 4 paths and on 72 two-URL histories (asked twice, query-dependent rules, three origins, two agents, reload)'
 
 
 def replay_redirect_target(doc):
